@@ -20,6 +20,9 @@ import (
 	"fmt"
 	"io"
 	"net"
+	"os"
+	"regexp"
+	"strconv"
 	"strings"
 	"sync"
 	"testing"
@@ -57,6 +60,26 @@ type c20Leader struct {
 	dbOK   bool
 	creds  *auth.CredentialsStore
 	sawReq map[string]string // last request seen per call, for the unchanged-request check
+
+	// sequences: requests carry an id; some ids are answered only after [delay]
+	slow     map[int]bool
+	delay    time.Duration
+	idCalls  map[int]int
+	inflight sync.WaitGroup
+}
+
+const c20IdxOffset = 5000000
+
+var c20IDRe = regexp.MustCompile(`[0-9]{6,}`)
+
+// c20ReqID extracts the request id a sequence request carries in its SQL text / node id (0 = none).
+func c20ReqID(req string) int {
+	m := c20IDRe.FindString(req)
+	if m == "" {
+		return 0
+	}
+	n, _ := strconv.Atoi(m)
+	return n
 }
 
 // credential store interface of cluster.Service: real decision, but remember who was asked about
@@ -68,13 +91,51 @@ func (l *c20Leader) AA(u, p, perm string) bool {
 }
 func (l *c20Leader) rec(call, req string) error {
 	l.mu.Lock()
-	defer l.mu.Unlock()
 	l.calls = append(l.calls, c20Call{call, l.lastU, l.lastP})
 	l.sawReq[call] = req
-	if !l.dbOK {
+	id := c20ReqID(req)
+	if id != 0 {
+		l.idCalls[id]++
+	}
+	wait := time.Duration(0)
+	if l.slow[id] {
+		wait = l.delay
+		l.inflight.Add(1)
+	}
+	ok := l.dbOK
+	l.mu.Unlock()
+	if wait > 0 {
+		time.Sleep(wait)
+		l.inflight.Done()
+	}
+	if !ok {
 		return errors.New("leader boom")
 	}
 	return nil
+}
+
+// answers are recognisable per request: id in the results, id+offset as raft index
+func c20IDOr(req string, def int64) int64 {
+	if id := c20ReqID(req); id != 0 {
+		return int64(id)
+	}
+	return def
+}
+func c20IdxOr(req string) uint64 {
+	if id := c20ReqID(req); id != 0 {
+		return uint64(id + c20IdxOffset)
+	}
+	return c20LeaderIdx
+}
+func c20TagOr(req string) string {
+	if id := c20ReqID(req); id != 0 {
+		return fmt.Sprintf("LEADER-ROW-%d", id)
+	}
+	return "LEADER-ROW"
+}
+func c20RowsTagged(tag string) []*proto.QueryRows {
+	return []*proto.QueryRows{{Columns: []string{"c"}, Types: []string{"text"},
+		Values: []*proto.Values{{Parameters: []*proto.Parameter{{Value: &proto.Parameter_S{S: tag}}}}}}}
 }
 func c20ExecRes(id int64) []*proto.ExecuteQueryResponse {
 	return []*proto.ExecuteQueryResponse{{Result: &proto.ExecuteQueryResponse_E{E: &proto.ExecuteResult{LastInsertId: id, RowsAffected: 1}}}}
@@ -91,22 +152,25 @@ func c20Stmts(r *proto.Request) string {
 	return strings.Join(ss, ";")
 }
 func (l *c20Leader) Execute(_ context.Context, er *proto.ExecuteRequest) ([]*proto.ExecuteQueryResponse, uint64, error) {
-	if err := l.rec("Execute", c20Stmts(er.Request)); err != nil {
+	req := c20Stmts(er.Request)
+	if err := l.rec("Execute", req); err != nil {
 		return nil, 0, err
 	}
-	return c20ExecRes(c20LeaderID), c20LeaderIdx, nil
+	return c20ExecRes(c20IDOr(req, c20LeaderID)), c20IdxOr(req), nil
 }
 func (l *c20Leader) Query(_ context.Context, qr *proto.QueryRequest) ([]*proto.QueryRows, proto.ConsistencyLevel, uint64, error) {
-	if err := l.rec("Query", c20Stmts(qr.Request)+"|"+qr.Level.String()); err != nil {
+	req := c20Stmts(qr.Request)
+	if err := l.rec("Query", req+"|"+qr.Level.String()); err != nil {
 		return nil, 0, 0, err
 	}
-	return c20Rows("LEADER"), qr.Level, c20LeaderIdx, nil
+	return c20RowsTagged(c20TagOr(req)), qr.Level, c20IdxOr(req), nil
 }
 func (l *c20Leader) Request(_ context.Context, rr *proto.ExecuteQueryRequest) ([]*proto.ExecuteQueryResponse, uint64, uint64, error) {
-	if err := l.rec("Request", c20Stmts(rr.Request)+"|"+rr.Level.String()); err != nil {
+	req := c20Stmts(rr.Request)
+	if err := l.rec("Request", req+"|"+rr.Level.String()); err != nil {
 		return nil, 0, 0, err
 	}
-	return []*proto.ExecuteQueryResponse{{Result: &proto.ExecuteQueryResponse_Q{Q: c20Rows("LEADER")[0]}}}, 1, c20LeaderIdx, nil
+	return []*proto.ExecuteQueryResponse{{Result: &proto.ExecuteQueryResponse_Q{Q: c20RowsTagged(c20TagOr(req))[0]}}}, 1, c20IdxOr(req), nil
 }
 func (l *c20Leader) Backup(_ context.Context, br *proto.BackupRequest, dst io.Writer) error {
 	if err := l.rec("Backup", br.Format.String()); err != nil {
@@ -222,6 +286,7 @@ func (m *c20Meta) GetNodeMeta(context.Context, string, int, time.Duration) (*cls
 func (m *c20Meta) Stats() (map[string]any, error) { return map[string]any{}, nil }
 
 type c20Rig struct {
+	dialer   *c20Dialer
 	leader   *c20Leader
 	follower *c20Follower
 	svc      *Service
@@ -229,7 +294,7 @@ type c20Rig struct {
 }
 
 func c20NewRig(t *testing.T) *c20Rig {
-	r := &c20Rig{leader: &c20Leader{creds: auth.NewCredentialsStore(), sawReq: map[string]string{}}, follower: &c20Follower{}}
+	r := &c20Rig{leader: &c20Leader{creds: auth.NewCredentialsStore(), sawReq: map[string]string{}, slow: map[int]bool{}, idCalls: map[int]int{}}, follower: &c20Follower{}}
 	ln, err := net.Listen("tcp", "127.0.0.1:0")
 	if err != nil {
 		t.Fatal(err)
@@ -255,8 +320,60 @@ func c20NewRig(t *testing.T) *c20Rig {
 	return r
 }
 
+// c20Dialer hands cluster.Client connections that remember what happened on them.
+type c20Dialer struct {
+	inner *tcp.Dialer
+	mu    sync.Mutex
+	conns []*c20Conn
+}
+
+type c20Conn struct {
+	net.Conn
+	mu       sync.Mutex
+	timedOut bool // a Read ended with an expired deadline: the answer it waited for is still owed
+	reused   bool // ... and the connection was read from or written to again
+	closed   bool
+}
+
+func (d *c20Dialer) Dial(addr string, timeout time.Duration) (net.Conn, error) {
+	c, err := d.inner.Dial(addr, timeout)
+	if err != nil {
+		return nil, err
+	}
+	w := &c20Conn{Conn: c}
+	d.mu.Lock()
+	d.conns = append(d.conns, w)
+	d.mu.Unlock()
+	return w, nil
+}
+func (c *c20Conn) use() {
+	c.mu.Lock()
+	if c.timedOut {
+		c.reused = true
+	}
+	c.mu.Unlock()
+}
+func (c *c20Conn) Read(b []byte) (int, error) {
+	c.use()
+	n, err := c.Conn.Read(b)
+	if err != nil && errors.Is(err, os.ErrDeadlineExceeded) {
+		c.mu.Lock()
+		c.timedOut = true
+		c.mu.Unlock()
+	}
+	return n, err
+}
+func (c *c20Conn) Write(b []byte) (int, error) { c.use(); return c.Conn.Write(b) }
+func (c *c20Conn) Close() error {
+	c.mu.Lock()
+	c.closed = true
+	c.mu.Unlock()
+	return c.Conn.Close()
+}
+
 func (r *c20Rig) resetClient() {
-	client := cluster.NewClient(tcp.NewDialer(cluster.MuxClusterHeader, nil), 30*time.Second)
+	r.dialer = &c20Dialer{inner: tcp.NewDialer(cluster.MuxClusterHeader, nil)}
+	client := cluster.NewClient(r.dialer, 30*time.Second)
 	px := proxy.New(r.follower, client)
 	px.SetAPIAddr("follower-api")
 	r.svc.proxy = px
@@ -281,7 +398,22 @@ type c20Input struct {
 	Present  bool       `json:"present"`
 	User     string     `json:"user"`
 	Pass     string     `json:"pass"`
+	Seq      []c20SeqStep `json:"seq,omitempty"` // non-empty: a sequence case; the fields above are unused
 }
+
+// one request of a sequence sent to ONE follower (one client, one connection pool)
+type c20SeqStep struct {
+	Kind    string `json:"kind"`    // Execute Query Request; a slow step may also be Remove or Stepdown
+	ID      int    `json:"id"`      // unique; travels in the SQL text / node id and comes back in results and index
+	Slow    bool   `json:"slow"`    // the leader answers after c20SeqDelay, the request carries timeout=c20SeqTimeout
+	Retries int    `json:"retries"` // retries= parameter of a slow request
+	User    string `json:"user"`    // u1 or u2 (both hold "all" on the leader)
+}
+
+const (
+	c20SeqTimeout = 100 * time.Millisecond
+	c20SeqDelay   = 500 * time.Millisecond
+)
 
 type c20Req struct{ method, target, ctype, body, expectReq string }
 
@@ -326,6 +458,7 @@ func c20Exchange(r *c20Rig, in c20Input) (c20Obs, error) {
 	l.mu.Lock()
 	l.creds, l.dbOK, l.calls, l.lastU, l.lastP = cs, in.DBOK, nil, "<never asked>", "<never asked>"
 	l.sawReq = map[string]string{}
+	l.slow, l.idCalls = map[int]bool{}, map[int]int{}
 	l.mu.Unlock()
 	f.mu.Lock()
 	f.local, f.addr, f.apiKnown, f.localCalls, f.addrCalls = in.Local, in.Addr, in.APIKnown, 0, 0
@@ -453,7 +586,7 @@ func c20Once(r *c20Rig, in c20Input) (VCase, bool) {
 	local := map[string]string{"ok": "LOk", "notleader": "LNotLeader", "notleader-wrapped": "LNotLeader", "err": "LErr"}[in.Local]
 	addr := map[string]string{"known": "AKnown", "empty": "AEmpty", "err": "AErr"}[in.Addr]
 	bad := strings.HasPrefix(o.servedB, "other") || o.index == "other"
-	coq := fmt.Sprintf("{| c_kind := K%s; c_local := %s; c_addr := %s; c_leader_file := Some %s; c_db_ok := %s; c_api_known := %s; c_redirect := %s; c_user := %s; c_pass := %s; "+
+	coq := fmt.Sprintf("COne {| c_kind := K%s; c_local := %s; c_addr := %s; c_leader_file := Some %s; c_db_ok := %s; c_api_known := %s; c_redirect := %s; c_user := %s; c_pass := %s; "+
 		"c_obs := {| h_status := %s; h_results := %s; h_index := %s; h_served_by := %s |}; c_local_calls := %s; c_addr_calls := %s; c_remote := %s |}",
 		in.Kind, local, addr, coqList(ents), coqBool(in.DBOK), coqBool(in.APIKnown), coqBool(in.Redirect), coqStr(user), coqStr(pass),
 		coqN(uint64(o.status)), c20CoqServed(o.results), c20CoqServed(o.index), c20CoqServed(o.servedB), coqNat(o.localCalls), coqNat(o.addrCalls), coqList(rem))
@@ -471,6 +604,208 @@ func c20Once(r *c20Rig, in c20Input) (VCase, bool) {
 		r.resetClient()
 	}
 	return c, true
+}
+
+// ---------------------------------------------------------------- sequences with slow answers on one follower
+
+var (
+	c20ResIDRe = regexp.MustCompile(`"last_insert_id":([0-9]+)|LEADER-ROW-([0-9]+)`)
+	c20IdxRe   = regexp.MustCompile(`"raft_index":([0-9]+)`)
+)
+
+type c20SeqObs struct {
+	got     []int // per step: id found in results+index; -1 = error response; -2 = results and index disagree / unreadable
+	detail  []string
+	reused  bool
+	unread  int
+	idCalls map[int]int
+}
+
+func c20SeqRequest(st c20SeqStep) c20Req {
+	q := "raft_index"
+	if st.Slow {
+		q += fmt.Sprintf("&timeout=%s&retries=%d", c20SeqTimeout, st.Retries)
+	}
+	switch st.Kind {
+	case "Execute":
+		return c20Req{"POST", "/db/execute?" + q, "application/json", fmt.Sprintf(`["INSERT INTO t VALUES(%d)"]`, st.ID), ""}
+	case "Query":
+		return c20Req{"GET", fmt.Sprintf("/db/query?q=SELECT%%20%d&level=strong&%s", st.ID, q), "", "", ""}
+	case "Request":
+		return c20Req{"POST", "/db/request?level=strong&" + q, "application/json", fmt.Sprintf(`["SELECT %d"]`, st.ID), ""}
+	case "Remove":
+		return c20Req{"DELETE", "/remove?" + q, "application/json", fmt.Sprintf(`{"id":"n%d"}`, st.ID), ""}
+	}
+	return c20Req{"POST", "/leader?" + q, "application/json", fmt.Sprintf(`{"id":"n%d"}`, st.ID), ""}
+}
+
+func c20RunSeqOnce(r *c20Rig, steps []c20SeqStep) (c20SeqObs, error) {
+	r.resetClient() // an empty pool, a fresh recording dialer
+	cs := auth.NewCredentialsStore()
+	cs.Load(strings.NewReader(`[{"username":"u1","password":"pw1","perms":["all"]},{"username":"u2","password":"pw2","perms":["all"]}]`))
+	l, f := r.leader, r.follower
+	l.mu.Lock()
+	l.creds, l.dbOK, l.calls = cs, true, nil
+	l.sawReq, l.slow, l.idCalls, l.delay = map[string]string{}, map[int]bool{}, map[int]int{}, c20SeqDelay
+	for _, st := range steps {
+		if st.Slow {
+			l.slow[st.ID] = true
+		}
+	}
+	l.mu.Unlock()
+	f.mu.Lock()
+	f.local, f.addr, f.apiKnown, f.localCalls, f.addrCalls = "notleader", "known", true, 0, 0
+	f.mu.Unlock()
+
+	o := c20SeqObs{}
+	for i, st := range steps {
+		rq := c20SeqRequest(st)
+		conn, err := net.DialTimeout("tcp", r.svc.Addr().String(), 5*time.Second)
+		if err != nil {
+			return o, err
+		}
+		conn.SetDeadline(time.Now().Add(60 * time.Second))
+		pw := map[string]string{"u1": "pw1", "u2": "pw2"}[st.User]
+		var sb bytes.Buffer
+		fmt.Fprintf(&sb, "%s %s HTTP/1.1\r\nHost: verif\r\nConnection: close\r\nAuthorization: Basic %s\r\n", rq.method, rq.target,
+			base64.StdEncoding.EncodeToString([]byte(st.User+":"+pw)))
+		if rq.ctype != "" {
+			fmt.Fprintf(&sb, "Content-Type: %s\r\n", rq.ctype)
+		}
+		fmt.Fprintf(&sb, "Content-Length: %d\r\n\r\n%s", len(rq.body), rq.body)
+		conn.Write(sb.Bytes())
+		raw, _ := io.ReadAll(conn)
+		conn.Close()
+		head, body, _ := bytes.Cut(raw, []byte("\r\n\r\n"))
+		status := 0
+		fmt.Sscanf(string(head), "HTTP/1.1 %d", &status)
+		if status == 0 {
+			return o, fmt.Errorf("request %d: no status line", i)
+		}
+		bs := string(body)
+		got := -1
+		switch {
+		case status >= 400 || strings.Contains(bs, `"error"`):
+			got = -1
+		case st.Kind == "Remove" || st.Kind == "Stepdown":
+			got = st.ID // success carries nothing that could be another request's
+		default:
+			got = -2
+			rm, im := c20ResIDRe.FindStringSubmatch(bs), c20IdxRe.FindStringSubmatch(bs)
+			if rm != nil && im != nil {
+				rid, _ := strconv.Atoi(rm[1] + rm[2])
+				idx, _ := strconv.Atoi(im[1])
+				if idx-c20IdxOffset == rid {
+					got = rid
+				}
+			}
+		}
+		o.got = append(o.got, got)
+		if len(bs) > 160 {
+			bs = bs[:160]
+		}
+		o.detail = append(o.detail, fmt.Sprintf("%d %s", status, bs))
+	}
+	// let the leader finish what it still owes, then look at the follower's connections
+	done := make(chan struct{})
+	go func() { l.inflight.Wait(); close(done) }()
+	select {
+	case <-done:
+	case <-time.After(5 * time.Second):
+	}
+	time.Sleep(40 * time.Millisecond)
+	r.dialer.mu.Lock()
+	for _, c := range r.dialer.conns {
+		c.mu.Lock()
+		if c.reused {
+			o.reused = true
+		}
+		closed := c.closed
+		c.mu.Unlock()
+		if !closed {
+			// idle in the pool: nothing may be waiting to be read on it
+			c.Conn.SetReadDeadline(time.Now().Add(5 * time.Millisecond))
+			if n, _ := c.Conn.Read(make([]byte, 1)); n > 0 {
+				o.unread++
+			}
+		}
+	}
+	r.dialer.mu.Unlock()
+	l.mu.Lock()
+	o.idCalls = l.idCalls
+	l.slow = map[int]bool{}
+	l.mu.Unlock()
+	r.resetClient()
+	return o, nil
+}
+
+func c20SeqCase(in c20Input, o c20SeqObs) VCase {
+	var steps, got []string
+	slow := false
+	for i, st := range in.Seq {
+		retry := st.Kind == "Execute" || st.Kind == "Query" || st.Kind == "Request"
+		steps = append(steps, fmt.Sprintf("{| ps_id := %s; ps_slow := %s; ps_retry := %s |}", coqN(uint64(st.ID)), coqBool(st.Slow), coqBool(retry)))
+		switch g := o.got[i]; {
+		case g == -1:
+			got = append(got, "None")
+		case g < 0:
+			got = append(got, "(Some 0%N)")
+		default:
+			got = append(got, "(Some "+coqN(uint64(g))+")")
+		}
+		slow = slow || st.Slow
+	}
+	c := VCase{Input: in, Key: vJSON(in), Nontrivial: slow, Tags: []string{"sequence", fmt.Sprintf("sequence-length=%d", len(in.Seq))},
+		Coq: fmt.Sprintf("CSeq {| sq_steps := %s; sq_got := %s; sq_reused := %s; sq_unread := %s |}", coqList(steps), coqList(got), coqBool(o.reused), coqNat(o.unread))}
+	fail := func(sig, msg string) {
+		if c.OracleFail == "" {
+			c.OracleFail = fmt.Sprintf("sequence %s forwarded by one follower: %s; per request (status body): %q; leader calls per id: %v", vJSON(in.Seq), msg, o.detail, o.idCalls)
+			c.Sig = "C20:" + sig
+		}
+	}
+	for i, st := range in.Seq {
+		switch g := o.got[i]; {
+		case g == st.ID:
+		case g == -1 && st.Slow:
+			// a timed-out request is an error
+		case g == -1:
+			fail("forwarded-request-failed:"+st.Kind, fmt.Sprintf("request #%d (id %d), which the leader answers at once, failed", i+1, st.ID))
+		default:
+			fail("answered-with-another-requests-results:"+st.Kind, fmt.Sprintf("request #%d (id %d) was answered with results/index of id %d", i+1, st.ID, g))
+		}
+		if !st.Slow && o.idCalls[st.ID] != 1 {
+			fail("executed-count:"+st.Kind, fmt.Sprintf("request #%d (id %d) reached the leader %d times", i+1, st.ID, o.idCalls[st.ID]))
+		}
+	}
+	if o.reused {
+		fail("connection-reused-after-timeout", "a pooled connection was used again after a read on it had timed out (its answer was still owed)")
+	}
+	if o.unread > 0 {
+		fail("owed-answer-left-in-pool", fmt.Sprintf("%d idle pooled connection(s) hold unread bytes", o.unread))
+	}
+	return c
+}
+
+func c20RunSeq(w *vWriter, r *c20Rig, steps []c20SeqStep) {
+	in := c20Input{Seq: steps}
+	for attempt := 0; ; attempt++ {
+		o, err := c20RunSeqOnce(r, steps)
+		if err != nil {
+			if attempt == 2 {
+				w.Emit(VCase{Input: in, Key: vJSON(in), OracleFail: "exchange failed: " + err.Error(), Sig: "C20:exchange-failed"})
+				return
+			}
+			continue
+		}
+		c := c20SeqCase(in, o)
+		if c.OracleFail == "" || attempt == 2 {
+			if attempt > 0 {
+				c.Tags = append(c.Tags, fmt.Sprintf("attempts=%d", attempt+1))
+			}
+			w.Emit(c)
+			return
+		}
+	}
 }
 
 func c20SQLiteBytes() []byte {
@@ -623,7 +958,11 @@ func TestVerif_C20(t *testing.T) {
 		if err := json.Unmarshal(raw, &in); err != nil {
 			t.Fatal(err)
 		}
-		c20Run(w, r, in)
+		if len(in.Seq) > 0 {
+			c20RunSeq(w, r, in.Seq)
+		} else {
+			c20Run(w, r, in)
+		}
 		return
 	}
 	kinds := []string{"Execute", "Query", "Request", "Backup", "Load", "Remove", "Stepdown"}
@@ -670,6 +1009,56 @@ func TestVerif_C20(t *testing.T) {
 				}
 			}
 		}
+	}
+	// sequences on ONE follower (one client, one pool): some requests are answered by the leader only
+	// after their deadline; the following ones must still get the answer to themselves
+	nextID := 700000
+	mkSeq := func(kinds []string, slowAt map[int]bool, slowKind string, retries int) []c20SeqStep {
+		var steps []c20SeqStep
+		for i, k := range kinds {
+			nextID++
+			st := c20SeqStep{Kind: k, ID: nextID, User: []string{"u1", "u2"}[i%2]}
+			if slowAt[i] {
+				st.Slow, st.Retries = true, retries
+				if slowKind != "" {
+					st.Kind = slowKind
+				}
+			}
+			steps = append(steps, st)
+		}
+		return steps
+	}
+	eqr := []string{"Execute", "Query", "Request", "Query", "Execute", "Request", "Query"}
+	for _, sk := range []string{"", "Execute", "Query", "Request", "Remove", "Stepdown"} {
+		for _, retries := range []int{0, 1} {
+			if sk == "Remove" || sk == "Stepdown" || sk == "" {
+				if retries == 1 {
+					continue
+				}
+			}
+			c20RunSeq(w, r, mkSeq(eqr[:5], map[int]bool{1: true}, sk, retries))
+		}
+	}
+	c20RunSeq(w, r, mkSeq(eqr[:4], map[int]bool{0: true}, "", 0))
+	c20RunSeq(w, r, mkSeq(eqr[:6], map[int]bool{1: true, 2: true}, "", 0))
+	c20RunSeq(w, r, mkSeq(eqr[:7], map[int]bool{0: true, 3: true}, "", 1))
+	c20RunSeq(w, r, mkSeq(eqr[:4], map[int]bool{}, "", 0))
+	c20RunSeq(w, r, mkSeq(eqr[:3], map[int]bool{2: true}, "", 0))
+	nseq := vN(8, 150)
+	for i := 0; i < nseq; i++ {
+		l := 3 + rng.Intn(5)
+		kinds := make([]string, l)
+		slowAt := map[int]bool{}
+		for j := range kinds {
+			kinds[j] = eqr[rng.Intn(3)]
+			if rng.Intn(4) == 0 {
+				slowAt[j] = true
+			}
+		}
+		if len(slowAt) == 0 {
+			slowAt[rng.Intn(l-1)] = true
+		}
+		c20RunSeq(w, r, mkSeq(kinds, slowAt, []string{"", "", "Remove", "Stepdown", "Execute"}[rng.Intn(5)], rng.Intn(2)))
 	}
 	// random leader files and presentations
 	n := vN(300, 8000)
